@@ -9,7 +9,8 @@ def handlers : List (List String → Option String) := [
   handleVisit,
   handleEnc,
   CtxDb.handleDb,
-  handleInput
+  handleInput,
+  Split.handleSplit
 ]
 
 def handle (fields : List String) : String :=
